@@ -135,5 +135,12 @@ pub fn run(cfg: &RunCfg) {
   let p = plan(cfg.tier);
   let n = corpus.len() as u64 + seed_packages().len() as u64 + p.n_gen;
   let _ = p.n_model;
-  run_cases(cfg, n, |seed, k| gen_case(seed, k, &corpus));
+  let lean = cfg.tier == Tier::Thorough && cfg.only_case.is_none();
+  run_cases(cfg, n, |seed, k| {
+    let mut c = gen_case(seed, k, &corpus);
+    if lean {
+      lean_meta(&mut c.meta);
+    }
+    c
+  });
 }
